@@ -744,7 +744,9 @@ SCOPE = (
     "InteractingNetworks incl. key / typical_weight (0.37) / in / out / bil / motif / sources-targets "
     "/ exclude_neighbors / stopping_mode / add_local_ends / alpha variants, the nsi_* entries of "
     "distance_based_measures(replace_inf_by=inf), and Network.splitted_copy against the harness "
-    "transformation. Tolerances (all float64): 1e-9 relative (atol 1e-9*max|value|), 1e-7 for the "
+    "transformation (also with the split node addressed by its documented negative index v - N and, "
+    "for the last node and an even split, with the default arguments: check splitted_copy/negative-"
+    "index). Tolerances (all float64): 1e-9 relative (atol 1e-9*max|value|), 1e-7 for the "
     "LU/inverse based random-walk betweennesses, 1e-4 for nsi_eigenvector_centrality (ARPACK tol "
     "1e-8 in shift-invert mode; connected undirected graphs whose n.s.i. adjacency matrix has a "
     "relative spectral gap >= 3e-3 only).")
